@@ -24,12 +24,16 @@ def Store.newRoot (s : Store) (name : Bytes) : Store × Nat :=
   let idx := s.idxCounter + 1
   ({ nodes := s.nodes ++ [{ name := name, hierarchy := 1, index := idx, children := [] }], idxCounter := idx }, s.nodes.length)
 
+/-- `findChildByText`: the first child of `p` called `name` -/
+def Store.findChild (s : Store) (p : PNode) (name : Bytes) : Option Nat :=
+  p.children.find? (fun c => match s.get? c with | some cn => cn.name == name | none => false)
+
 /-- `(*Node).Add`: the existing child with that name, or a new child one level deeper -/
 def Store.add (s : Store) (pid : Nat) (name : Bytes) : Store × Option Nat :=
   match s.get? pid with
   | none => (s, none)
   | some p =>
-    match p.children.find? (fun c => match s.get? c with | some cn => cn.name == name | none => false) with
+    match s.findChild p name with
     | some c => (s, some c)
     | none =>
       let idx := s.idxCounter + 1
